@@ -453,7 +453,7 @@ const ruleC12 = "payloader: 1-4 frames whose uncompressed header prefix is writt
 func TestC12(t *testing.T) {
 	r := begin(t, "C12", "exploration", ruleC12)
 	defer r.finish()
-	subC12Pay.rapidRun(r, n(8000, 150000), genVP9PayCase)
+	subC12Pay.rapidRun(r, n(8000, 250000), genVP9PayCase)
 	subC12Desc.rapidRun(r, n(15000, 250000), genVP9DescCase)
 	subC12Hdr.rapidRun(r, n(10000, 150000), func(t *rapid.T) *VP9HdrCase {
 		return &VP9HdrCase{H: genVP9Hdr(t, 0), Extra: genBytesN(t, "extra", rapid.IntRange(0, 6).Draw(t, "extralen"))}
